@@ -609,3 +609,97 @@ def rule_no_one_shot_state(model: Model, rule_id: str = 'C10-R10') -> RuleResult
                 else:
                     r.ok()
     return r
+
+
+def rule_no_shared_class_state(model: Model, rule_id: str = 'C10-R11') -> RuleResult:
+    """C10: no mutable container bound at class level is written through instances (it would be shared by every converter of that class)."""
+    r = RuleResult(rule_id, 'a container bound at class level is never filled through an instance (one table per converter, not one per class)',
+                   floor=30)
+    for ci in sorted(model.classes.values(), key=lambda c: c.qualname):
+        r.instances += 1
+        shared = {}
+        for nm, v in ci.attr_values.items():
+            mutable = isinstance(v, (ast.Dict, ast.List, ast.Set, ast.DictComp, ast.ListComp, ast.SetComp)) or (
+                isinstance(v, ast.Call) and isinstance(v.func, ast.Name) and v.func.id in ('dict', 'list', 'set', 'defaultdict', 'OrderedDict', 'Counter', 'deque'))
+            if mutable:
+                shared[nm] = v
+        if not shared:
+            r.ok()
+            continue
+        bad = []
+        classes = [c for c in model.classes.values() if c is ci or model.is_subclass(c.qualname, ci.qualname)]
+        for c in classes:
+            for f in c.methods.values():
+                if not isinstance(f.node, ast.FunctionDef) or not f.params:
+                    continue
+                me = f.params[0]
+                rebinds = {tg.attr for st in ast.walk(f.node) if isinstance(st, (ast.Assign, ast.AnnAssign))
+                           for tg in (st.targets if isinstance(st, ast.Assign) else [st.target])
+                           if isinstance(tg, ast.Attribute) and isinstance(tg.value, ast.Name) and tg.value.id == me}
+                for st in ast.walk(f.node):
+                    hit = None
+                    if isinstance(st, (ast.Assign, ast.AugAssign, ast.Delete)):
+                        tgts = st.targets if isinstance(st, (ast.Assign, ast.Delete)) else [st.target]
+                        for tg in tgts:
+                            if isinstance(tg, ast.Subscript) and isinstance(tg.value, ast.Attribute) and isinstance(tg.value.value, ast.Name) \
+                                    and tg.value.value.id == me and tg.value.attr in shared:
+                                hit = tg.value.attr
+                    if isinstance(st, ast.Call) and isinstance(st.func, ast.Attribute) and st.func.attr in MUT and isinstance(st.func.value, ast.Attribute) \
+                            and isinstance(st.func.value.value, ast.Name) and st.func.value.value.id == me and st.func.value.attr in shared:
+                        hit = st.func.value.attr
+                    if hit and not (f.name in ('__init__', '__post_init__') and hit in rebinds):
+                        bad.append((f, st, hit))
+        r.analysed.add(ci.qualname)
+        if bad:
+            for (f, st, nm) in bad:
+                r.fail(ci.qualname, f"{nm} is bound at class level and filled through self in {f.name}", f.loc(st),
+                       "every instance writes into the same table: what one converter accepts depends on which other converters of the "
+                       "class were built before (e.g. enum value tables of different enums merge)")
+        else:
+            r.ok()
+    return r
+
+
+def rule_no_module_state(model: Model, rule_id: str = 'C10-R12') -> RuleResult:
+    """C10 / C18: the package keeps no hidden module-level memo: the only container a function may fill is the registered-handler list
+    (by register_converter_handler); converters are memoised only by the key cache, which keeps its arguments alive."""
+    r = RuleResult(rule_id, 'no function writes into a module-level container (other than registering a global handler)', floor=3)
+    gh = anchors.global_handlers(model)
+    for m in model.modules.values():
+        cont = {}
+        for nm, v in m.assign_values.items():
+            vv = v
+            while isinstance(vv, ast.Call) and model.resolve(vv.func, m) == 'typing.cast' and len(vv.args) == 2:
+                vv = vv.args[1]
+            if isinstance(vv, (ast.Dict, ast.List, ast.Set)) or (isinstance(vv, ast.Call) and isinstance(vv.func, ast.Name)
+                                                                   and vv.func.id in ('dict', 'list', 'set', 'defaultdict', 'OrderedDict', 'WeakValueDictionary')):
+                cont[nm] = v
+        for nm in sorted(cont):
+            if nm.startswith('__'):
+                continue
+            q = f"{m.name.replace('.__init__', '')}.{nm}"
+            r.instances += 1
+            writers = []
+            for f in model.all_functions():
+                if not isinstance(f.node, ast.FunctionDef):
+                    continue
+                for x in ast.walk(f.node):
+                    hit = None
+                    if isinstance(x, (ast.Assign, ast.AugAssign, ast.Delete)):
+                        tgts = x.targets if isinstance(x, (ast.Assign, ast.Delete)) else [x.target]
+                        for tg in tgts:
+                            if isinstance(tg, ast.Subscript) and model.resolve(tg.value, f.module, f) == q:
+                                hit = 'item store'
+                    elif isinstance(x, ast.Call) and isinstance(x.func, ast.Attribute) and x.func.attr in MUT | {'move_to_end'} \
+                            and model.resolve(x.func.value, f.module, f) == q:
+                        hit = f".{x.func.attr}()"
+                    if hit and not (q == gh and f.qualname == 'pane.convert.register_converter_handler'):
+                        writers.append((f, x, hit))
+            if writers:
+                for (f, x, hit) in writers:
+                    r.fail(f.qualname, f"{hit} on module-level {nm}", f.loc(x),
+                           "a module-level table is filled while the program runs: what a call does depends on the calls before it (a memo keyed "
+                           "by id() or by a mutable mapping goes stale when the object is collected or changed)")
+            else:
+                r.ok()
+    return r
